@@ -102,6 +102,14 @@ Fixpoint insert_child (c : obj) (l : list obj) : list obj :=
   end.
 Definition reorder_children (l : list obj) : list obj := fold_left (fun acc c => insert_child c acc) l [].
 
+(* topology->modified (set on every removal and, since fix f40bbad, after every
+   hwloc__reorder_children call) only decides whether hwloc__reconnect recomputes the
+   derived pointer fields (children[], last_child, prev_sibling, sibling_rank, levels).
+   The tree model has no derived fields that could be stale, so the flag has no
+   counterpart here: its effect is decided on the C output by wf_check (children-array,
+   sibling-rank, ... clauses) and hwloc_topology_check after every step
+   (corpus/c08/reorder-without-reconnect.case). *)
+
 (* what one call returns to its caller: the object if it stays, and the I/O and
    Misc children lists that unlink_and_free_single_object appends to the parent *)
 Definition rres := (option obj * list obj * list obj)%type.
@@ -194,11 +202,10 @@ Fixpoint levels_same_structure (l1 l2 : list obj) (checkmemory : bool) : bool :=
 Definition filt (filters : list N) (ty : N) : N := nthN filters ty HWLOC_TYPE_FILTER_KEEP_NONE.
 Definition prio (ty : N) : Z := nthN obj_type_priority ty 0%Z.
 
-(* [dm]: ids of the objects whose attr->group.dont_merge byte is non-zero.  The C
-   code reads that byte for every object of a level whenever the UPPER level is a
-   Group level (topology.c:2681 and 2687 both test type1), so for a lower level of
-   caches it reads a byte of the cache attributes; the driver computes [dm]
-   accordingly from the dump. *)
+(* [dm]: ids of the Group objects whose attr->group.dont_merge is non-zero (the driver
+   reads it from the dump).  Since fix 08e415b the child level is protected when the
+   CHILD type is Group (the code used to test the parent's type there and thereby read
+   the byte in non-Group attributes). *)
 Definition dont_merge_level (dm : list N) (l : list obj) : bool := existsb (fun o => memN (oid o) dm) l.
 
 (* one iteration of the loop for level index i (>= 1): the new root *)
@@ -210,7 +217,7 @@ Definition merge_step (filters dm : list N) (ls : list (list obj)) (i : nat) (ro
       let ty1 := otype o1 in
       let ty2 := otype o2 in
       let rp0 := (filt filters ty1 =? HWLOC_TYPE_FILTER_KEEP_STRUCTURE) && negb ((ty1 =? HWLOC_OBJ_GROUP) && dont_merge_level dm l1) in
-      let rc0 := (filt filters ty2 =? HWLOC_TYPE_FILTER_KEEP_STRUCTURE) && negb ((ty1 =? HWLOC_OBJ_GROUP) && dont_merge_level dm l2) in
+      let rc0 := (filt filters ty2 =? HWLOC_TYPE_FILTER_KEEP_STRUCTURE) && negb ((ty2 =? HWLOC_OBJ_GROUP) && dont_merge_level dm l2) in
       let rc1 := if negb rc0 && negb rp0 then (ty1 =? HWLOC_OBJ_PACKAGE) && (ty2 =? HWLOC_OBJ_DIE) else rc0 in
       if negb rc1 && negb rp0 then root
       else
